@@ -6,8 +6,10 @@ import JrsVerif.Proofs.Format
 import JrsVerif.Proofs.FormatParse
 import JrsVerif.Proofs.FormatFloat
 import JrsVerif.Proofs.FormatRound
+import JrsVerif.Proofs.FormatExact
 
 set_option linter.unusedSimpArgs false
+set_option exponentiation.threshold 4000
 
 namespace JrsVerif.Format
 open JrsVerif.Generated
@@ -29,6 +31,12 @@ theorem flag_table_spec :
       ∧ FMT_DEFAULT_FPPREC = 6 ∧ FMT_DEFAULT_IPREC = 0 ∧ FMT_G_LOW_EXP = 4 ∧ FMT_EXP_PADDING = 3 := by
   decide
 
+/-- digit generation of e/E/f/F/g/G is delegated to exactly these two calls into Rust's float
+    formatting (`float_digits`, `float_sci_digits`; the extractor rejects any other body) — the
+    calls whose answers are the parameters `Num.rfix` / `Num.rsci` of the model and which the
+    harness replays -/
+theorem rust_float_calls_spec : FMT_RUST_FIXED = "{:.*}" ∧ FMT_RUST_SCI = "{:.*e}" := by decide
+
 /-! ### integer conversions -/
 
 /-- C12 `int_conv_spec`: for every flag subset, width, precision (given, absent, or taken from `*`),
@@ -44,11 +52,11 @@ theorem int_conv_spec (n : Num) (d : List Char) (c : Code) (w : Nat) (p : Option
 
 /-- non-vacuity: `"%+08.3x" % -255.5` -/
 example :
-    formatCode (.num { neg := true, whole := 255, fracNZ := true } [])
+    formatCode (.num { neg := true, mag := 511 * 2 ^ 1073 } [])
       { mkey := [], flags := { zero := true, sign := true }, width := .fixed 8, prec := some (.fixed 3),
         conv := .hex, caps := false } 8 (some 3) = .ok "-00000ff".toList := by
-  rw [int_conv_spec _ _ _ _ _ (Or.inr (Or.inr rfl)) (by unfold DBL_BOUND; exact Nat.lt_of_lt_of_le (by decide : 255 < 2 ^ 8) (Nat.pow_le_pow_right (by decide) (by decide)))]
-  exact congrArg Except.ok (by decide)
+  rw [int_conv_spec _ _ _ _ _ (Or.inr (Or.inr rfl)) (by decide +kernel)]
+  exact congrArg Except.ok (by decide +kernel)
 
 /-- the full statement: every finite double, no bound at the `i64` range -/
 def IntConvStmt : Prop :=
@@ -64,12 +72,11 @@ theorem int_conv_full : IntConvStmt :=
 
 /-- the former witness: `"%d" % 9223372036854775808` prints all its digits -/
 example :
-    formatCode (.num { neg := false, whole := 9223372036854775808 } [])
+    formatCode (.num { neg := false, mag := 2 ^ 63 * 2 ^ 1074 } [])
       { mkey := [], flags := {}, width := .fixed 0, prec := none, conv := .dec, caps := false } 0 none
       = .ok "9223372036854775808".toList := by
-  rw [int_conv_full _ _ _ _ _ (Or.inl rfl)
-    (Nat.lt_of_lt_of_le (by decide : 9223372036854775808 < 2 ^ 64) (Nat.pow_le_pow_right (by decide) (by decide)))]
-  exact congrArg Except.ok (by decide)
+  rw [int_conv_full _ _ _ _ _ (Or.inl rfl) (by decide +kernel)]
+  exact congrArg Except.ok (by decide +kernel)
 
 /-- the statement that was provable before the repair (`|v| < 2^63`) -/
 theorem int_conv_partial (n : Num) (d : List Char) (c : Code) (w : Nat) (p : Option Nat)
@@ -153,7 +160,7 @@ theorem char_conv_spec : CharConvStmt := by
 
 /-- the former witness: `"%c" % -3` is an invalid-code-point error -/
 example :
-    formatCode (.num { neg := true, whole := 3 } [])
+    formatCode (.num { neg := true, mag := 3 * 2 ^ 1074 } [])
       { mkey := [], flags := {}, width := .fixed 0, prec := none, conv := .chr, caps := false } 0 none
       = .error .codepoint := by
   rw [char_conv_spec _ _ _ _ rfl]; rfl
@@ -169,38 +176,184 @@ theorem char_conv_partial (v : Val) (c : Code) (w : Nat) (p : Option Nat) (hc : 
 
 /-! ### float conversions -/
 
-/-- C12 `float_conv_spec`: for every flag subset, width, precision and conversion e/E/f/F/g/G,
-    everything `format_code` does AFTER digit generation — sign, `#` (forced point, kept zeros),
-    zero padding computed inside `render_float` (e/f) or applied afterwards (`%g`), width, trailing
-    zero stripping of `%g`, the two-digit signed exponent, the choice between fixed and exponent
-    form with the extracted threshold 1e-4 — equals the reference text, for ALL digit data the
-    pipeline can hand over (`OracleOK`: the parts are doubles, the fraction is a remainder modulo
-    10^precision).  It never panics; a precision above 308 is `tooLarge`; a missing oracle entry is
-    reported as such on both sides. -/
+/-- the full statement for e/E/f/F/g/G: the text is the reference text built from the EXACT
+    decimal expansion of the double — `FormatSpec.fixDigits` / `sciDigits`, round half even on the
+    exact value, in integer arithmetic on |v| · 2^1074 — for every finite double, flag subset,
+    width and precision -/
+def FloatConvStmt : Prop :=
+  ∀ (n : Num) (disp : List Char) (c : Code) (w : Nat) (p : Option Nat),
+    (c.conv = .sci ∨ c.conv = .flt ∨ c.conv = .shorter) → n.mag < 2 ^ 2098 → RustFmtExact n →
+    formatCode (.num n disp) c w p = FormatSpec.conv c w p (.num n disp)
+
+/-- C12 `float_conv_spec`: for every flag subset, width, precision, conversion e/E/f/F/g/G and
+    EVERY finite double, `format_code` never panics and produces exactly the reference text:
+    the exact decimal expansion of the double correctly rounded (half even) to the precision,
+    exponent of the rounded value (two digits at least, signed), `%g` form chosen by that exponent
+    with the extracted threshold, sign, `#` (forced point, kept zeros), zero padding computed
+    inside `render_float_digits` (e/f) or applied afterwards (`%g`), trailing-zero stripping,
+    width; a precision above 308 is `tooLarge`.  ASSUMPTION (`OracleOK` = finite double ∧
+    `RustFmtExact`): Rust's float formatting, to which the code delegates digit generation,
+    returns the exact correctly rounded expansion.  (Formerly restricted to "everything after
+    digit generation, for digit data handed over by an unmodelled double-arithmetic pipeline",
+    with the finding `c12_float_digits_inexact_beyond_2_53`: `"%f" % 1e21` ended in `.555072`;
+    repaired.) -/
 theorem float_conv_spec (n : Num) (disp : List Char) (c : Code) (w : Nat) (p : Option Nat)
     (hc : c.conv = .sci ∨ c.conv = .flt ∨ c.conv = .shorter) (ho : OracleOK n) :
     formatCode (.num n disp) c w p = FormatSpec.conv c w p (.num n disp) :=
   formatCode_float n disp c w p hc ho
 
-/-- non-vacuity: `"%+09.2f" % -3.14159` with the digit data (3, 14) -/
+/-- the full statement is a theorem -/
+theorem float_conv_full : FloatConvStmt :=
+  fun n disp c w p hc hm hr => formatCode_float n disp c w p hc ⟨hm, hr⟩
+
+/-- decidable form of `r = .ok s` (for the examples) -/
+def isOkText (r : R (List Char)) (s : List Char) : Bool :=
+  match r with
+  | .ok t => t == s
+  | .error _ => false
+
+theorem eq_of_isOkText (r : R (List Char)) (s : List Char) (h : isOkText r s = true) : r = .ok s := by
+  cases r with
+  | error e => cases h
+  | ok t => simp only [isOkText, beq_iff_eq] at h; rw [h]
+
+/-- the reference rounds to a NEAREST integer (at most half a unit of the last place away from
+    the exact value, on either side) and an exact tie goes to the even neighbour -/
+theorem round_half_even_nearest (n d : Nat) (hd : 0 < d) :
+    2 * (FormatSpec.roundHalfEven n d * d - n) ≤ d ∧ 2 * (n - FormatSpec.roundHalfEven n d * d) ≤ d ∧
+      (2 * (n % d) = d → FormatSpec.roundHalfEven n d % 2 = 0) :=
+  roundHalfEven_nearest n d hd
+
+/-- `%f` digit data recompose to |v| · 10^p rounded half even, the fraction has `p` digits -/
+theorem fix_digits_recompose (mag p : Nat) :
+    (FormatSpec.fixDigits mag p).whole * 10 ^ p + (FormatSpec.fixDigits mag p).frac
+        = FormatSpec.roundHalfEven (mag * 10 ^ p) (2 ^ 1074)
+      ∧ (FormatSpec.fixDigits mag p).frac < 10 ^ p := by
+  refine ⟨?_, Nat.mod_lt _ (Nat.pow_pos (by omega))⟩
+  show FormatSpec.fixedUnits mag p / 10 ^ p * 10 ^ p + FormatSpec.fixedUnits mag p % 10 ^ p = _
+  rw [Nat.mul_comm, Nat.div_add_mod]
+  rfl
+
+/-- the reference's scientific notation is normalised for every non-zero finite double: exactly one
+    leading digit, 1..9 — i.e. the reference's decimal exponent (`exp10`, then the carry step) is the
+    exponent of the rounded value — and its mantissa units lie in [10^p, 10^(p+1)] before the
+    carry step -/
+theorem sci_digits_normalised (mag p : Nat) (h0 : 0 < mag) (h : mag < 2 ^ 2098) :
+    1 ≤ (FormatSpec.sciDigits mag p).2.whole ∧ (FormatSpec.sciDigits mag p).2.whole ≤ 9
+      ∧ (FormatSpec.sciDigits mag p).2.frac < 10 ^ p
+      ∧ 10 ^ p ≤ FormatSpec.sciUnits mag p (FormatSpec.exp10 mag)
+      ∧ FormatSpec.sciUnits mag p (FormatSpec.exp10 mag) ≤ 10 ^ (p + 1) :=
+  ⟨(sciDigits_leading mag p h0 h).1, (sciDigits_leading mag p h0 h).2, (sciDigits_ok mag p).2,
+    (sciUnits_bracket mag p h0 h).1, (sciUnits_bracket mag p h0 h).2⟩
+
+/-- non-vacuity: 9.5 at precision 0 — units 10 at exponent 0, so the carry step gives 1e1 -/
+example : FormatSpec.sciUnits (19 * 2 ^ 1073) 0 (FormatSpec.exp10 (19 * 2 ^ 1073)) = 10
+    ∧ FormatSpec.sciDigits (19 * 2 ^ 1073) 0 = (1, { whole := 1, frac := 0 }) := by decide +kernel
+
+/-- a number whose formatter answers are the exact ones meets the assumption -/
+def exactNum (neg : Bool) (mag : Nat) : Num :=
+  { neg := neg, mag := mag, rfix := FormatSpec.rustFixed mag, rsci := FormatSpec.rustSci mag }
+
+theorem exactNum_ok (neg : Bool) (mag : Nat) (h : mag < 2 ^ 2098) : OracleOK (exactNum neg mag) :=
+  ⟨h, fun _ _ => ⟨rfl, rfl⟩⟩
+
+/-- every finite bit pattern denotes a number within the bound of the theorems -/
+theorem ofBits_finite (bits : Nat) (h : (bits / 2 ^ 52) % 2048 ≠ 2047) : (Num.ofBits bits).mag < 2 ^ 2098 := by
+  unfold Num.ofBits
+  simp only []
+  have hf : bits % 2 ^ 52 < 2 ^ 52 := Nat.mod_lt _ (Nat.pow_pos (by omega))
+  split
+  · exact Nat.lt_of_lt_of_le hf (Nat.pow_le_pow_right (by omega) (by omega))
+  · have hb : bits / 2 ^ 52 % 2048 - 1 ≤ 2045 := by omega
+    have h1 : bits % 2 ^ 52 + 2 ^ 52 < 2 ^ 53 := by
+      have : (2 : Nat) ^ 53 = 2 ^ 52 + 2 ^ 52 := by decide
+      omega
+    calc (bits % 2 ^ 52 + 2 ^ 52) * 2 ^ (bits / 2 ^ 52 % 2048 - 1)
+        < 2 ^ 53 * 2 ^ (bits / 2 ^ 52 % 2048 - 1) := Nat.mul_lt_mul_of_pos_right h1 (Nat.pow_pos (by omega))
+      _ ≤ 2 ^ 53 * 2 ^ 2045 := Nat.mul_le_mul_left _ (Nat.pow_le_pow_right (by omega) hb)
+      _ = 2 ^ 2098 := by rw [← Nat.pow_add]
+
+/-- non-vacuity: `"%+09.2f" % -3.14159` (the double 3537115888337719 · 2^-50) -/
 example :
-    formatCode (.num { neg := true, whole := 3, fracNZ := true, fix := [(2, { whole := 3, frac := 14 })] } [])
+    formatCode (.num (exactNum true (3537115888337719 * 2 ^ 1024)) [])
       { mkey := [], flags := { zero := true, sign := true }, width := .fixed 9, prec := some (.fixed 2),
         conv := .flt, caps := false } 9 (some 2) = .ok "-00003.14".toList := by
-  rw [float_conv_spec _ _ _ _ _ (Or.inr (Or.inl rfl))]
-  · exact congrArg Except.ok (by decide)
-  · refine ⟨?_, ?_, ?_⟩
-    · intro q d h
-      have hq : q = 2 ∧ d = { whole := 3, frac := 14 } := by
-        simp only [List.lookup] at h
-        split at h
-        · rename_i hb; simp at h; exact ⟨by simpa using hb, h.symm⟩
-        · cases h
-      obtain ⟨rfl, rfl⟩ := hq
-      refine ⟨?_, ?_, by decide⟩ <;>
-        exact Nat.lt_of_lt_of_le (by decide : _ < 2 ^ 8) (Nat.pow_le_pow_right (by decide) (by decide))
-    · intro q d h; cases h
-    · exact Nat.lt_of_lt_of_le (by decide : _ < 2 ^ 8) (Nat.pow_le_pow_right (by decide) (by decide))
+  rw [float_conv_spec _ _ _ _ _ (Or.inr (Or.inl rfl)) (exactNum_ok _ _ (by decide +kernel))]
+  exact eq_of_isOkText _ _ (by decide +kernel)
+
+/-- the former witness of the finding: `"%f" % 1e21` (= 476837158203125 · 2^21) prints zeros
+    after the point -/
+example :
+    formatCode (.num (exactNum false (476837158203125 * 2 ^ 1095)) [])
+      { mkey := [], flags := {}, width := .fixed 0, prec := none, conv := .flt, caps := false } 0 none
+      = .ok "1000000000000000000000.000000".toList := by
+  rw [float_conv_spec _ _ _ _ _ (Or.inr (Or.inl rfl)) (exactNum_ok _ _ (by decide +kernel))]
+  exact eq_of_isOkText _ _ (by decide +kernel)
+
+/-- double rounding is gone: `"%.0f" % 0.49999999999999994` is 0; ties go to even: `"%.0f" % 2.5`
+    is 2; the exponent is the one of the rounded value: `"%.0e" % 9.5` is `1e+01`, and
+    `"%g" % 999999.5` is `1e+06` -/
+example :
+    formatCode (.num (exactNum false (9007199254740991 * 2 ^ 1020)) [])
+        { mkey := [], flags := {}, width := .fixed 0, prec := some (.fixed 0), conv := .flt, caps := false } 0 (some 0)
+        = .ok "0".toList
+    ∧ formatCode (.num (exactNum false (5 * 2 ^ 1073)) [])
+        { mkey := [], flags := {}, width := .fixed 0, prec := some (.fixed 0), conv := .flt, caps := false } 0 (some 0)
+        = .ok "2".toList
+    ∧ formatCode (.num (exactNum false (19 * 2 ^ 1073)) [])
+        { mkey := [], flags := {}, width := .fixed 0, prec := some (.fixed 0), conv := .sci, caps := false } 0 (some 0)
+        = .ok "1e+01".toList
+    ∧ formatCode (.num (exactNum false (1999999 * 2 ^ 1073)) [])
+        { mkey := [], flags := {}, width := .fixed 0, prec := none, conv := .shorter, caps := false } 0 none
+        = .ok "1e+06".toList := by
+  refine ⟨?_, ?_, ?_, ?_⟩
+  · rw [float_conv_spec _ _ _ _ _ (Or.inr (Or.inl rfl)) (exactNum_ok _ _ (by decide +kernel))]; exact eq_of_isOkText _ _ (by decide +kernel)
+  · rw [float_conv_spec _ _ _ _ _ (Or.inr (Or.inl rfl)) (exactNum_ok _ _ (by decide +kernel))]; exact eq_of_isOkText _ _ (by decide +kernel)
+  · rw [float_conv_spec _ _ _ _ _ (Or.inl rfl) (exactNum_ok _ _ (by decide +kernel))]; exact eq_of_isOkText _ _ (by decide +kernel)
+  · rw [float_conv_spec _ _ _ _ _ (Or.inr (Or.inr rfl)) (exactNum_ok _ _ (by decide +kernel))]; exact eq_of_isOkText _ _ (by decide +kernel)
+
+/-- what `format_code` does with the text Rust's formatter returned is right for ALL digit data,
+    whether or not they are the digits of the number (`%f`/`%F`): split at the point, sign, `#`,
+    zero padding, width -/
+theorem float_layout_fixed (n : Num) (disp : List Char) (c : Code) (w : Nat) (p : Option Nat) (d : FDig)
+    (hc : c.conv = .flt) (hp : p.getD 6 ≤ 308) (hd : DigOK (p.getD 6) d)
+    (ht : n.rfix (p.getD 6) = FormatSpec.plainText (p.getD 6) d) :
+    formatCode (.num n disp) c w p =
+      .ok (FormatSpec.floatConv c.flags w n.neg (FormatSpec.fixedText d (p.getD 6) c.flags.alt true) []) := by
+  rw [formatCode_unfold]
+  unfold formatBody
+  delta FMT_DEFAULT_FPPREC FMT_MAX_FPPREC
+  have hbig : ¬ (p.getD 6 > 308) := by omega
+  simp only [hc, hbig, Val.asNum, decide_false, Bool.false_and, Bool.false_eq_true, if_false, bind,
+    Except.bind, renderFloat, ht]
+  exact float_core_fixed c.flags w n.neg d _ c.flags.alt hp hd
+
+/-- the same for `%e`/`%E`: any digit data and any exponent within `i32` that Rust's text spells -/
+theorem float_layout_sci (n : Num) (disp : List Char) (c : Code) (w : Nat) (p : Option Nat) (d : FDig) (x : Int)
+    (hc : c.conv = .sci) (hp : p.getD 6 ≤ 308) (hd : DigOK (p.getD 6) d) (hx : -100000 ≤ x ∧ x ≤ 100000)
+    (ht : n.rsci (p.getD 6) = FormatSpec.plainText (p.getD 6) d ++ 'e' :: FormatSpec.intText x) :
+    formatCode (.num n disp) c w p =
+      .ok (FormatSpec.floatConv c.flags w n.neg (FormatSpec.fixedText d (p.getD 6) c.flags.alt true)
+        (FormatSpec.expText c.caps x)) := by
+  rw [formatCode_unfold]
+  unfold formatBody
+  delta FMT_DEFAULT_FPPREC FMT_MAX_FPPREC
+  have hbig : ¬ (p.getD 6 > 308) := by omega
+  have hs : floatSciDigits n (p.getD 6) = (FormatSpec.plainText (p.getD 6) d, x) := by
+    unfold floatSciDigits
+    simp only [ht]
+    rw [splitOnce_append _ _ _ (plainText_no_e _ _)]
+    simp only [Option.getD_some]
+    rw [parseI32_intText _ (by omega) (by omega)]
+  simp only [hc, hbig, Val.asNum, decide_false, Bool.false_and, Bool.false_eq_true, if_false, bind,
+    Except.bind, renderFloatSci, hs]
+  have hxb : x.natAbs < DBL_BOUND :=
+    Nat.lt_of_lt_of_le (by omega : x.natAbs < 2 ^ 17) (Nat.pow_le_pow_right (by omega) (by omega))
+  exact float_core_sci c.flags w n.neg x d _ c.flags.alt c.caps hp hd hxb
+
+/-- non-vacuity of the layout theorems: the digit data (3, 14) at precision 2 -/
+example : DigOK 2 { whole := 3, frac := 14 } ∧ FormatSpec.plainText 2 { whole := 3, frac := 14 } = "3.14".toList :=
+  ⟨⟨Nat.lt_of_lt_of_le (by decide : 3 < 2 ^ 2) (Nat.pow_le_pow_right (by decide) (by decide)), by decide⟩, by decide⟩
 
 /-- formerly the finding `c12_float_precision_65535_overflows_u16` (`"%.*f" % [65535, 3]`
     panicked in `dot_size + precision`): a float conversion with a precision above 308 is the
